@@ -44,7 +44,7 @@ pub struct Case {
 }
 
 fn pkt() -> impl Strategy<Value = P> {
-    let id = prop_oneof![4 => 0u8..6, 1 => any::<u8>()];
+    let id = frag_id_any().boxed();
     let len = prop_oneof![3 => 0u16..40, 3 => 40u16..200, 1 => 200u16..5000];
     prop_oneof![
         3 => (lab_any(), len.clone(), 0u8..4).prop_map(|(lab, len, ext)| P::Complete { lab, len, ext }),
@@ -70,7 +70,7 @@ fn strategy(t: Tier) -> BoxedStrategy<Case> {
         3 => Just(vec![]),
         2 => prop::collection::vec((memop, 1u8..8), 1..3),
     ];
-    bx((1u8..=4, prop_oneof![Just(0u16), 1u16..50, 50u16..300], prop::collection::vec(op, 1..t.pick(30, 60)), faults)
+    bx((prop_oneof![5 => 1u8..=4, 1 => Just(0u8)], prop_oneof![Just(0u16), 1u16..50, 50u16..300], prop::collection::vec(op, 1..t.pick(30, 60)), faults)
         .prop_map(|(slots, pdu_size, ops, faults)| Case { slots, pdu_size, ops, faults }))
 }
 
@@ -170,7 +170,8 @@ fn sorted(mut v: Vec<usize>) -> Vec<usize> {
 }
 
 fn check(c: &Case, st: &mut Stats) -> Result<(), String> {
-    let mut d = new_ledger_dec(c.slots as usize, c.pdu_size as usize, TableManager::all());
+    let mut d = new_ledger_dec(slots_of(c.slots), c.pdu_size as usize, TableManager::all());
+    st.class_if(c.slots == 0, "256-slots");
     d.memory.ledger.faults = c.faults.iter().map(|(o, n)| (*o, *n as u32)).collect();
     let mut plans: HashMap<u8, Plan> = HashMap::new();
     let mut held: Vec<Box<[u8]>> = vec![];
